@@ -57,14 +57,14 @@ func instrBuild(r *rt.Run) (scratch, bin string, err error) {
 		}
 		return nil
 	}
-	if err = run(mc, "go", "build", "-o", instr, "./cmd/instr"); err != nil {
+	if err = run(mc, "go", rt.GoBuild("-o", instr, "./cmd/instr")...); err != nil {
 		return
 	}
-	if err = run(mc, instr, "-repo", "/repo", "-out", scratch, "-rt", filepath.Join(mc, "instr")); err != nil {
+	if err = run(mc, instr, "-repo", rt.RepoDir, "-out", scratch, "-rt", filepath.Join(mc, "instr")); err != nil {
 		return
 	}
 	bin = filepath.Join(scratch, "verif-instr")
-	err = run(mc, "go", "build", "-tags", "verifinstr", "-overlay", filepath.Join(scratch, "overlay.json"), "-o", bin, "./cmd/verif")
+	err = run(mc, "go", rt.GoBuild("-tags", "verifinstr", "-overlay", filepath.Join(scratch, "overlay.json"), "-o", bin, "./cmd/verif")...)
 	return
 }
 
